@@ -163,7 +163,7 @@ def main():
         case = {'files': files, 'docformat': rng.choice(DOCFORMATS)}
         if rng.random() < 0.4:
             # privacy rules that never match a root module (last segment starts with an upper-case letter / underscore)
-            lo = rng.choice('ABCDEFGHIJKLMNOPQRSTUVWXYZ_')
+            lo = rng.choice('ABCDEFGHIJKLMNOPQRSTUVWXYZ')      # [lo-Z_]: never an inverted range (that is C13's known finding)
             case['args'] = ['--privacy=%s:**.[%s-Z_]*' % (rng.choice(['HIDDEN', 'HIDDEN', 'PRIVATE', 'PUBLIC']), lo)
                             for _ in range(rng.randint(1, 2))]
         cases.append(case)
